@@ -1293,17 +1293,12 @@ func applyFilterOperatorUnrotatedPQSRequest(qsr *QuerySegmentRequest, allSegFile
 }
 
 func applyFilterOperatorUnrotatedRawSearchRequest(qsr *QuerySegmentRequest, allSegFileResults *segresults.SearchResults, qs *summary.QuerySummary) error {
-	// run through micro index check for block tracker & generate SSR
-	blocksToRawSearch, err := qsr.GetMicroIndexFilter()
+	// The segment may have been rotated after it was listed as unrotated; GetSSRsFromQSR
+	// then generates the SSR from the rotated metadata instead of the (gone) unrotated info.
+	rawSearchSSR, err := GetSSRsFromQSR(qsr, qs)
 	if err != nil {
-		log.Errorf("qid=%d, failed to get blocks to raw search! Defaulting to searching all blocks. SegKey %+v, err: %v", qsr.qid, qsr.segKey, err)
-		blocksToRawSearch = qsr.GetEntireFileMicroIndexFilter()
-	}
-	sTime := time.Now()
-	rawSearchSSR := metadata.ExtractUnrotatedSSRFromSearchNode(qsr.sNode, qsr.queryRange, qsr.indexInfo.GetQueryTables(), blocksToRawSearch, qs, qsr.qid)
-	qs.UpdateExtractSSRTime(time.Since(sTime))
-	for _, req := range rawSearchSSR {
-		req.SType = qsr.sType
+		log.Errorf("qid=%d, applyFilterOperatorUnrotatedRawSearchRequest: failed to get SSRs from QSR! SegKey %+v", qsr.qid, qsr.segKey)
+		return err
 	}
 	err = ApplyFilterOperatorInternal(allSegFileResults, rawSearchSSR, qsr.parallelismPerFile, qsr.sNode, qsr.queryRange,
 		qsr.sizeLimit, qsr.aggs, qsr.qid, qs)
